@@ -48,13 +48,18 @@ def run_shape(ctx, tr, shape, via, origin):
     b = envgen.Builder(d)
     scn = {"origin": origin, "via": via, "shape": shape}
     tr.begin(scn)
-    desc = b.desc(shape, toolrun.create_lib)
     try:
+        desc = b.desc(shape, toolrun.create_lib)
         out = toolrun.create_lib(desc) if via == "lib" else toolrun.create_cli(desc, d, fmt=via)
     except Exception as e:
-        raise core.MachineryError(f"create failed for {json.dumps(shape)[:300]}: {e!r}")
+        out = None
+        ctx.observe(f"create refused a generated description: {type(e).__name__}: {str(e)[:100]}")
     if out is None:
-        raise core.MachineryError(f"CLI create failed for {json.dumps(shape)[:300]}")
+        # not a verdict of C05 (nothing was created); skipped and counted, systemic refusals fail the run as machinery
+        ctx.count("refused_by_create")
+        tr.events.pop()
+        tr.tid -= 1
+        return
     t = tr.terms
     env = project.Env(out)
     for path, data in toolrun.levels(out):
@@ -149,6 +154,8 @@ def run(ctx: core.Check):
             toolrun.report(ctx, tr, label="refs-forms")
             tr = toolrun.Trace()
     toolrun.report(ctx, tr, label="refs-forms")
+    if ctx.cov.get("refused_by_create", 0) > 0.2 * max(1, ctx.cov["evaluations"]):
+        raise core.MachineryError(f"create refused {ctx.cov['refused_by_create']} generated descriptions")
     ctx.observe("O2: a payload value consisting only of hex digits is a hex literal even if a file of that name exists; names that "
                 "are entirely hex digits are therefore not generated")
     ctx.assumptions += ["hashlib; own CBOR reader and manifest walker", "the dependency created on its own by the real tool is the "
